@@ -22,7 +22,7 @@ func C01(r *core.Run) int {
 	var cases []specgen.Case
 	matrix := specgen.MatrixCases()
 	shapes := specgen.ShapeCases()
-	comps := specgen.Compositions(r.Seed, map[bool]int{false: 40, true: 400}[r.Thorough()])
+	comps := specgen.FamilyCases(r.Seed, r.Thorough())
 	up := specgen.UpstreamCases(core.RepoDir())
 	cases = append(cases, matrix...)
 	cases = append(cases, shapes...)
